@@ -133,3 +133,11 @@ Theorem C09_save_load_same_format : forall ext ft : nat,
   (supported ext = false -> save_format ext ft = if supported ft then Some ft else None).
 Proof. exact save_load_same_format_l. Qed.
 Print Assumptions C09_save_load_same_format.
+
+(* token layer, exponent sign: the UAI reader's float token consumes the WHOLE printed token for both exponent
+   signs ('8.659340042399374e+16' as well as '1e-05'); a token grammar without the explicit '+' accepts a printed
+   shape exactly when it has no '+' exponent, i.e. it cuts every value >= 1e16 after the mantissa *)
+Theorem C09_uai_plus_exponent_upto24 : forall s, shape_within 24 s ->
+  uai_ok (render s) = true /\ uai_noplus_ok (render s) = negb (has_plus_exponent s).
+Proof. exact uai_plus_exponent_upto24_l. Qed.
+Print Assumptions C09_uai_plus_exponent_upto24.
